@@ -1,8 +1,9 @@
 (* ======================================================================================
    Model/Fun2CoreGuard  -  the executable predicates of the preservation theorem for fun2core
    (C02_fun2core_correct_fragment2): names and binders of a term ([nm], [bnd]), the scope check [ws],
-   the capture guard [nocap], the fragment [frag], and the program guards [prog_guard] /
-   [frag_prog].  Not models of Rust code; used by the proofs (Proof/Fun2Core*.v) and by modelrun
+   the former capture guard [nocap] (no longer part of any guard since the repair <commitcap> of the
+   translation; kept as a definition: the Barendregt condition implies it), the fragment [frag], and the
+   program guards [prog_guard] / [frag_prog].  Not models of Rust code; used by the proofs (Proof/Fun2Core*.v) and by modelrun
    (tag proved-fragment2).  No proofs here.
    ====================================================================================== *)
 From Coq Require Import List ZArith NArith String Bool.
@@ -236,13 +237,14 @@ End Frag.
 
 (* the guard of the preservation theorem, per definition and per program *)
 Definition def_guard (p : fcprog) (d : fdef) : bool :=
-  frag p (fdbody d) && ws (compile_ctx (fdctx d)) (fdbody d) && nocap (fdbody d)
+  frag p (fdbody d) && ws (compile_ctx (fdctx d)) (fdbody d)
   && (if String.eqb (fdname d) "main" then data_ty p (fterm_type (fdbody d)) && ctx_data p (fdctx d) else true)
   && kd p (fdbody d) && Bool.eqb (tkind p (fdbody d)) (f_is_codata p (fdret d)).
 Definition prog_guard (p : fcprog) : bool := forallb (def_guard p) (fcpdefs p).
 
 
-(* the program guard in terms of the Barendregt condition *)
+(* the program guard as it was stated next to the Barendregt condition, when [def_guard] still contained the
+   capture guard [nocap]; now the same predicate as [def_guard] *)
 Definition def_guard_b (p : fcprog) (d : fdef) : bool :=
   frag p (fdbody d) && ws (compile_ctx (fdctx d)) (fdbody d)
   && (if String.eqb (fdname d) "main" then data_ty p (fterm_type (fdbody d)) && ctx_data p (fdctx d) else true)
